@@ -197,13 +197,21 @@ def summarise(facts, d, pty, owner, kind):
                 if m and m.group(1) in bools and (pname is None or t.startswith(pname + '.')):
                     (flags if m.group(1) in MODELLED else other)[m.group(1)] = 0 if e[2] == 0 else 1
                     continue
-            hd = head(t)
+            # `probe().is_ok()` / `.is_some()` / `.is_none()` / `.is_err()` tested as a boolean is the same observation as matching the variant
+            wrapped = re.match(r'^(is_ok|is_some|is_err|is_none)\((.*)\)$', t) if e[0] == 'branch' else None
+            hd = head(wrapped.group(2) if wrapped else t)
             hit = [mm for site, mm in sites.items() if hd == site]
             if not hit:
                 continue
             pk = hit[-1][1]
             val = None
-            if e[0] == 'variant':
+            if wrapped:
+                truth = (e[2] != 0) == (wrapped.group(1) in ('is_ok', 'is_some'))
+                if pk in ('result', 'option'):
+                    val = 'exists' if truth else 'missing'
+                elif pk == 'result-bool':
+                    val = 'either' if truth else 'unknown'
+            elif e[0] == 'variant':
                 if pk == 'result':
                     val = {'Ok': 'exists', 'Err': 'missing'}.get(e[3])
                 elif pk == 'option':
@@ -365,4 +373,4 @@ def run(ctx):
     b, n2 = check_handlers(probe, st, ddl='dfscan_selftest::ddl::DdlStatement', owner='dfscan_selftest::ddl::SessionContext', rule='st', scope_out={})
     msgs = ' '.join(v.get('message', '') + v.get('instance', '') for v in probe.violations) if hasattr(probe, 'violations') else ''
     ctx.selftest('decision-table rule fires on a handler that replaces under IF NOT EXISTS and on a DROP IF EXISTS that fails on a missing object and on a DROP that ignores whether anything was removed; silent on the correct handler',
-                 b == 3 and n2 >= 12)
+                 b == 3 and n2 >= 20)
